@@ -20,4 +20,5 @@ def run(prog, rep, tier):
     apply(rep, "W1", "const protocol (type-level)", r_pure.w1(prog), 8)
     import r_pure as _rp
     apply(rep, "Q5", "libdw's sticky error indicator is never used to decide without being cleared first (CFG must-pass-through)", _rp.q5(prog), 2)
+    apply(rep, "Q6", "no member function that modifies an op-graph object is reachable from next / set_next / result / state_con / state_des", _rp.q6(prog), 1)
     maybe_mutants("C12", rep, tier)
